@@ -39,7 +39,7 @@ func suiteMap(t *testing.T, cfg cfgT) {
 	ctx := context.Background()
 	long := strings.Repeat("x", 65536)
 	longUsed := 0
-	adversarial := []string{"", "a", "é", "𝄞", "\xff\xfe", "a\x00b", " ", "o1", long, "%s", "'; DROP TABLE keto_uuid_mappings; --", "‮", "a:b#c@d"}
+	adversarial := []string{"", "a", "é", "𝄞", "\xff\xfe", "a\x00b", " ", "o1", long, "%s", "'; DROP TABLE keto_uuid_mappings; --", "‮", "a:b#c@d", "6ba7b810-9dad-11d1-80b4-00c04fd430c8", "6BA7B810-9DAD-11D1-80B4-00C04FD430C8", "urn:uuid:6ba7b810-9dad-11d1-80b4-00c04fd430c8", "00000000-0000-0000-0000-000000000000"}
 	sizes := []int{1, 2, 3, 50, 99, 100, 101, 150, 201, 350}
 	cases := 0
 	for cases < cfg.n {
